@@ -150,6 +150,10 @@ def judge(ctx, sc, im):
         if default_mode:
             continue
         ctx.dist['frame-judged'] += 1
+        for c in (c1, c2):       # translate() towards the lexicon that was added / removed is not a result of S
+            for x in c['scope'].get('synsets_x', []):
+                for t in changed:
+                    x['translate'].pop(t, None)
         d = c01.diff(c1, c2)
         if d:
             path = d[0]
